@@ -68,7 +68,7 @@ Section Thm.
     exists r, e_f E (knobs s') = Some r /\ within_tol (ta s') r.
   Proof.
     intros H Ha. pose proof (solve_spec E cf fuel nn tb b s) as P. rewrite H in P. cbn in P.
-    destruct P as (_ & _ & Sy & Hl & _). destruct (synced_flag s' Sy (Hl Ha)) as (r & H1 & _ & H3). eauto.
+    destruct P as (_ & Sy & Hl & _). destruct (synced_flag s' Sy (Hl Ha)) as (r & H1 & _ & H3). eauto.
   Qed.
 
   Lemma solve_failure_restores fuel nn tb b s e s' r0 rest :
@@ -106,19 +106,19 @@ Section Thm.
       eapply post_bind'; [apply step_core_spec| |].
       + intros e s' (_ & X). apply ext_rows_truth in X. destruct X as (m & L & Fm). rewrite L, Lp.
         apply Forall_app; auto.
-      + intros s1 (_ & _ & _ & _ & (r0 & M & extra & L & _ & Fm & _)). unfold post.
+      + intros s1 (_ & _ & _ & (r0 & M & extra & L & _ & Fm & _)). unfold post.
         destruct (post_flags_data E cf a s1) as (_ & Lq & _). rewrite Lq, L, Lp. apply Forall_app; split; auto.
         eapply Forall_impl; [|exact Fm]. intros r [H _]; exact H.
     - eapply post_weaken; [apply solve_spec| |].
-      + intros s' (_ & _ & _ & _ & X). auto.
+      + intros s' (_ & _ & _ & X). auto.
       + intros e s' (X & _). auto.
     - apply Hrel.
     - destruct (reload_tag_cases t s) as [Hc|[i Hc]]; rewrite Hc; [cbn; auto|apply Hrel].
     - eapply post_weaken; [apply add_point_spec| |].
-      + intros s' (_ & _ & _ & _ & _ & _ & (r & L & _ & _ & _ & _ & T)). rewrite L. apply Forall_app; auto.
+      + intros s' (_ & _ & _ & _ & _ & (r & L & _ & _ & _ & _ & T)). rewrite L. apply Forall_app; auto.
       + intros e s' (_ & L & _). rewrite L; auto.
     - unfold clear_log. eapply post_weaken; [apply add_point_spec| |].
-      + intros s' (_ & _ & _ & _ & _ & _ & (r & L & _ & _ & _ & _ & T)). rewrite L. cbn. auto.
+      + intros s' (_ & _ & _ & _ & _ & (r & L & _ & _ & _ & _ & T)). rewrite L. cbn. auto.
       + intros e s' (_ & L & _). rewrite L; cbn; auto.
     - exact Hs.
     - exact Hs.
@@ -136,7 +136,7 @@ Section Thm.
   Proof.
     intros Hi Hr. induction Hr as [|s1 fuel o s2 Hr IH Ho|s1 fuel o e s2 Hr IH Ho].
     - unfold init in Hi. pose proof (add_point_spec E cf 0%N (pre_init E cf k0 va0)) as P. rewrite Hi in P. cbn in P.
-      destruct P as (_ & _ & _ & _ & _ & _ & (r & L & _ & _ & _ & _ & T)). rewrite L. cbn. auto.
+      destruct P as (_ & _ & _ & _ & _ & (r & L & _ & _ & _ & _ & T)). rewrite L. cbn. auto.
     - pose proof (op_rows_truthful fuel o s1 IH) as P. rewrite Ho in P. exact P.
     - pose proof (op_rows_truthful fuel o s1 IH) as P. rewrite Ho in P. exact P.
   Qed.
@@ -230,7 +230,7 @@ Section Thm.
       pose proof (step_core_spec E cf fuel nn true b (pre_flags E cf a s)) as P.
       destruct (step_core E cf fuel nn true b (pre_flags E cf a s)) as [s1|e s1|]; cbn in H; try discriminate.
       inversion H; subst s'. unfold post in P.
-      destruct P as ((_ & Ft & _) & _ & Sy & _ & (r0 & M & extra & L & Rk & _ & Htb)).
+      destruct P as ((_ & Ft & _) & Sy & _ & (r0 & M & extra & L & Rk & _ & Htb)).
       destruct (pre_flags_data E cf a s) as (Kp & Lp & _).
       destruct (post_flags_data E cf a s1) as (Kq & Lq & _).
       exists r0, M, extra. rewrite Lq, Kq, L, Lp, Rk, Kp. split; auto. split; auto.
